@@ -14,6 +14,14 @@ from .core import HarnessError, Result, TestDef, canon, case_hash, jsonable, loa
 HOME = os.environ.get("VERIF_HOME", os.path.dirname(os.path.dirname(os.path.abspath(__file__))))
 
 
+def replay_root():
+    """replays/ for /repo itself; a separate sub-directory per scratch copy (selftest runs in parallel)"""
+    repo = os.path.realpath(os.environ.get("VERIF_REPO", "/repo"))
+    if repo == "/repo":
+        return os.path.join(HOME, "replays")
+    return os.path.join(HOME, "replays", "_scratch", repo.strip("/").replace("/", "_"))
+
+
 def derive_seed(seed: int, prop: str, test: str, shard: int, rnd: int = 0) -> int:
     h = hashlib.blake2b(f"{seed}|{prop}|{test}|{shard}|{rnd}".encode(), digest_size=8)
     return int.from_bytes(h.digest(), "big") >> 1
@@ -99,7 +107,7 @@ class Collector:
         if old is not None and old["size"] <= size:
             old["count"] += 1
             return
-        d = os.path.join(HOME, "replays", self.prop_id)
+        d = os.path.join(replay_root(), self.prop_id)
         os.makedirs(d, exist_ok=True)
         safe = "".join(ch if ch.isalnum() else "_" for ch in viol.clause)[:60]
         path = os.path.join(d, f"{name}-{safe}-s{self.shard}.json")
